@@ -373,9 +373,14 @@ def c11_prop():
                           "either side, receiver handles dropped in a symbolic order: the LAST receiver discards the buffer immediately and closes"))
     quick.append(H(LIFE, "life_witness_mpmc_discard", "witness", replay=("life_mpmc_discard", 0), mask=PALL, witness_bit=2 | 8, est_s=40,
                    bounds="witness twin: two values buffered, closed by the sender, then the only receiver is dropped"))
+    quick.append(H(LIFE, "mpmc_handles_n3", "hold", replay=("mpmc_handles", 0), mask=P(11), est_s=30, est_gb=1.5,
+                   bounds="shared mpmc handle counting WITHOUT futures: 2 sender + 2 receiver handle slots, 3 clone/drop operations; after each the "
+                          "channel is closed exactly if the last handle of a side is gone (observed through try_receive / try_send)"))
     quick.append(H(LIFE, "life_state_n3", "hold", replay=("life_state", 0), mask=P(11), est_s=200,
                    bounds="E-HIST lifecycle, shared state-broadcast: up to 2+2 handles, 3 clone/drop operations"))
     thorough = quick + [
+        H(LIFE, "mpmc_handles_n4", "hold", replay=("mpmc_handles", 0), mask=P(11), est_s=60, est_gb=2, timeout=3000,
+          bounds="shared mpmc handle counting without futures: 2+2 handle slots, 4 clone/drop operations"),
         H(LIFE, "shared_mpmc_min_c11", "hold", replay=("shared_mpmc_min", 0), mask=P(11), est_s=280, est_gb=20, mem_gb=30, timeout=3000,
           bounds="SHARED (Arc) mpmc send/receive futures, capacity 1, straight-line scenario with optional close(): parked sender woken and handed "
                  "its value back, accepted values still delivered, then Closed"),
@@ -1008,3 +1013,4 @@ DECODERS["shared_stream_min"] = lambda cfg, script: ["shared channel(1): try_sen
 DECODERS["mpmc_clear_noalloc"] = decode_raw
 DECODERS["semsh_scenario"] = decode_raw
 DECODERS["shared_mpmc_min"] = lambda cfg, script: ["shared channel(1): pre-filled=%s; send future polled; close()=%s; receive future polled; sender re-polled; try_receive" % (bool(script[0] & 1) if script else "?", bool(script[1] & 1) if len(script) > 1 else "?")]
+DECODERS["mpmc_handles"] = lambda cfg, script: [l.replace("a receive future is registered (pending) as observer", "no futures").replace("; re-poll the observer", "; probe closedness with try_receive/try_send") for l in decode_life(cfg, script)]
